@@ -354,6 +354,20 @@ def families(tier):
     inner_cc = L(X.LEAF_ALL + ["CRX10"]) + [h(lf) for lf in L(X.LEAF4) for h in tiny] + [["prod", a, b] for a in L(X.LEAF4) for b in L(X.LEAF4)]
     F["Controlled class constructor over leaves / tiny / products (+ outer tiny)"] = (
         [["cctrl", x, cw, cv] for x in inner_cc for cw, cv in cc] + [g(["cctrl", x, [2], [0]]) for x in inner_cc for g in tiny])
+    # same-wire Pauli words (length 2-4: every word over X0,Y0,Z0 collapses to a phase times a Pauli or the identity) multiplied
+    # with a non-Pauli operand, alone and inside a sum: the collapsed phase must survive simplify()
+    import itertools as _it
+
+    pw = [list(w) for n in (2, 3, 4) for w in _it.product(("X0", "Y0", "Z0"), repeat=n)]
+    fam = []
+    for w in pw:
+        for tail in (["RX1"], ["CRX10"], []):
+            p = ["prod"] + L(w) + L(tail)
+            fam.append(p)
+            if tail:
+                fam.append(["sum", p, L(tail)[0]])
+                fam.append(["prod", L(tail)[0]] + L(w))
+    F["same-wire Pauli words x non-Pauli operand (phase bookkeeping of Prod.simplify)"] = fam
     if tier == "thorough":
         F["depth3:full o small o small on 13 leaves"] = [f(g(h(lf))) for lf in L(X.LEAF_ALL) for h in small for g in small for f in full]
         F["depth4:small o tiny o tiny o tiny on 4 leaves"] = [f(g(h(i(lf)))) for lf in L(X.LEAF4) for i in tiny for h in tiny for g in tiny for f in small]
